@@ -35,7 +35,7 @@ RULE = ("seeded inversion inputs (as C04: non-square / signed PSFs, 1..3 objects
         "lists, regularised or not) x both formalisms x subsets of the five public preload slots x 3 successive inversions sharing one "
         "Preloads object. A case = (input, formalism, slot subset); distinct by hash of (mask, kernel, data, noise, mapping matrices, "
         "formalism, subset); non-trivial = non-empty subset")
-BOUNDS = {"quick": "12 inputs x 2 formalisms x 8 slot subsets x 3 reuses", "thorough": "640 inputs x 2 formalisms x all 32 subsets x 3 reuses"}
+BOUNDS = {"quick": "32 inputs x 2 formalisms x 8 slot subsets x 3 reuses", "thorough": "640 inputs x 2 formalisms x all 32 subsets x 3 reuses"}
 EXHAUSTIVE = {"quick": False, "thorough": False}
 ASSUMPTIONS = ["outputs compared with max|a-b| <= 1e-9*max|ref| (scalars: 1e-9 relative, log-determinants with the conditioning-aware tolerance of C08)",
                "slot values come from a second, separate computation on a twin dataset built from the same arrays"]
@@ -48,7 +48,7 @@ QUICK_SUBSETS = [(), ("w_tilde",), ("curvature_matrix",), ("regularization_matri
 
 
 def plan(tier, seed):
-    n = 12 if tier == "quick" else 640
+    n = 32 if tier == "quick" else 640
     return [{"kind": "inp", "start": s, "stop": s + 1, "w": 1} for s in range(n)]
 
 
